@@ -206,6 +206,61 @@ void go_mix(Rng& rng)
 }
 
 ////////////////////////////////////////////////////////////////////////////////
+// shift count given as a cnl::constant (operator<< / >> (any_uintwide, constant<Value>) of _impl/wide-integer.h; <<= and
+// >>= with a constant are routed through the binary operator).  constant<> is `template<auto>`: the value type of the
+// constant is the type of the count the representation is shifted by — the N_c literals are constant<cnl::intmax_t{N}>
+// (a 128-bit signed count), constant<300> an int, constant<300u> an unsigned, ...  CS = the constant types (chosen by
+// C10.py: counts around the limb width, 127..129, 255..257, 300, 511..513, N-w, N-1, N, N+5, negative, seeded; every
+// count as an N_c literal and with a built-in value type in rotation)
+#define SHC(NAME, EXPR) \
+    { \
+        printf("C10 shc " NAME " %s %s ", tn<W>().c_str(), tn<C>().c_str()); \
+        prhex(a); \
+        putchar(' '); \
+        prv(K); \
+        fputs(" => ", stdout); \
+        VH_RUN(EXPR, print_w) \
+    }
+
+template<class W, class CT, bool COMPOUND>
+void shc(std::vector<W> const& ws)
+{
+    using C = std::remove_cv_t<typename CT::value_type>;
+    constexpr C K = CT::value;
+    for (W const& a : ws) {
+        SHC("shl", a << CT{})
+        SHC("shr", a >> CT{})
+        if constexpr (COMPOUND) {
+            SHC("shla", ([&] { W l = a; l <<= CT{}; return l; }()))
+            SHC("shra", ([&] { W l = a; l >>= CT{}; return l; }()))
+        }
+    }
+}
+
+template<class W>
+std::vector<W> shc_values(Rng& rng)
+{
+    Gen<W> g{rng};
+    std::vector<W> sw;
+    auto const c = g.corner();
+    for (std::size_t i : {std::size_t(1), std::size_t(2), std::size_t(3), std::size_t(4)}) sw.push_back(mkw<W>(c[i]));  // 1, -1, max, lowest
+    LV dense = g.zero();
+    for (auto& x : dense) x = rng.next() & Gen<W>::mask;
+    sw.push_back(mkw<W>(dense));
+    for (auto& x : dense) x = ~x & Gen<W>::mask;  // the same with the other sign
+    sw.push_back(mkw<W>(dense));
+    for (int i = 0; i < 2 * scale_from_env(); ++i) sw.push_back(mkw<W>(g.value()));
+    return sw;
+}
+
+template<class W, class... CS>
+void go_shc(Rng& rng)
+{
+    std::vector<W> const sw = shc_values<W>(rng);
+    (shc<W, CS, true>(sw), ...);
+}
+
+////////////////////////////////////////////////////////////////////////////////
 // decimal text
 
 template<class W>
